@@ -29,6 +29,7 @@ import uuid
 import warnings
 
 import c03_oracle as oracle
+import c03_typeddicts
 import coregen
 import coremodel
 import coreprop
@@ -547,6 +548,44 @@ def run_case(module_source, annotation, input_src):
         impl.clear_caches()
 
 
+def typeddict_stream(run, per_module):
+    """the oracle on the systematic TypedDict environments of c03_typeddicts (Required / NotRequired / totality /
+    inheritance x real, postponed and quoted annotations x root and nested positions x dropped / renamed keys)"""
+    from typelib import unmarshals
+    rng = random.Random(run.seed + 29)
+    stats = {"evaluations": 0, "accepted": 0, "modules": 0, "positions": 0}
+    fails = []
+    for src, rows in c03_typeddicts.cases(rng, per_module):
+        _replay_counter[0] += 1
+        name = f"verif_c03_td_{os.getpid()}_{_replay_counter[0]}"
+        mod = impl.new_module(name, src)
+        stats["modules"] += 1
+        try:
+            ns = vars(mod)
+            for ann, inp, tag in rows:
+                t, x = eval(ann, ns), eval(inp, ns)
+                impl.clear_caches()
+                stats["evaluations"] += 1
+                try:
+                    with warnings.catch_warnings():
+                        warnings.simplefilter("ignore")
+                        r = unmarshals.unmarshal(t, x)
+                except BaseException:
+                    continue
+                stats["accepted"] += 1
+                problems, _, pos = oracle.check(t, r, ns)
+                stats["positions"] += pos
+                if problems:
+                    fails.append({"kind": "nonconforming-result", "tag": tag,
+                                  "symptom_class": oracle.symptom_class(problems[0]), "annotation": ann,
+                                  "annotation_repr": repr(t)[:300], "module_source": src, "input": inp,
+                                  "input_repr": inp[:400], "observed": repr(r)[:400], "problems": problems[:4], "_x": x})
+        finally:
+            impl.drop_module(name)
+            impl.clear_caches()
+    return fails, stats
+
+
 def replay(payload):
     r = run_case(payload["module_source"], payload["annotation"], payload["input"])
     r["required"] = "unmarshal(T, x) raises or returns a value that structurally conforms to T"
@@ -605,11 +644,13 @@ def search(run: lib.Run, broken):
             fails.append({"kind": "nonconforming-result", "tag": "corpus:" + fn, "symptom_class": r["symptom_class"],
                           "annotation": p["annotation"], "module_source": p["module_source"], "input": p["input"],
                           "input_repr": p["input"], "observed": r["observed"], "problems": r["problems"]})
+    td_fails, td_stats = typeddict_stream(run, run.budget(60, None))
+    fails += td_fails
     st = ensure_stream(run)
     fails += st["failures"]
-    evaluations = st["judged"] + ncorp
-    accepted = st["accepted"]
-    positions = st["positions"]
+    evaluations = st["judged"] + ncorp + td_stats["evaluations"]
+    accepted = st["accepted"] + td_stats["accepted"]
+    positions = st["positions"] + td_stats["positions"]
     extra = None
     if broken:
         # harder: the disagreeing cases were judged with the rest of the stream; widen the stream
@@ -635,7 +676,7 @@ def search(run: lib.Run, broken):
     run.search_stats["oracle"] = {
         "evaluations": evaluations, "distinct_nontrivial": accepted, "accepted_results_checked": accepted,
         "positions_checked": positions, "unjudged_positions": st["unjudged"], "corpus_cases": ncorp,
-        "failures": len(fails), "failure_classes": sorted(best),
+        "failures": len(fails), "failure_classes": sorted(best), "typeddict_stream": td_stats,
         "input_tags": st["tags"],
         "rule": "every unmarshal(T, x) of the generated stream (valid values, wire forms, JSON / literal text, corrupted "
                 "wire forms, unrelated objects, instances of other classes) that returns is checked by the independent "
